@@ -543,5 +543,7 @@ pub fn run(class: &str, seed: u64, p: &Params) -> RunResult {
         wall_ms: t0.elapsed().as_millis() as u64,
         virtual_ms: plan.duration_ms,
         sample,
+        cases: 0,
+        classes: Vec::new(),
     }
 }
